@@ -14,6 +14,7 @@ struct w_other {};
 struct w_step {};
 struct w_in {};
 struct w_flag {};
+struct w_deep {};
 struct w_st : public msm::front::state<>
 {
     template <class Event, class FSM> void on_entry(Event const&, FSM&) {}
@@ -33,7 +34,8 @@ struct w_depth3
         template <class Event, class FSM> void on_exit(Event const&, FSM&) {}
         struct transition_table : mpl::vector<
             msm::front::Row<L1, w_step, L2, w_act, msm::front::none>,
-            msm::front::Row<L2, w_step, L1, msm::front::none, w_grd>
+            msm::front::Row<L2, w_step, L1, msm::front::none, w_grd>,
+            msm::front::Row<L1, w_deep, L2, msm::front::none, msm::front::none>   // an event only the innermost level knows
         > {};
         template <class FSM, class Event> void no_transition(Event const&, FSM&, int) {}
     };
@@ -68,6 +70,20 @@ struct w_depth3
         template <class FSM, class Event> void no_transition(Event const&, FSM&, int) {}
     };
     typedef Back<Root3_, Policy> Root3;
+    // a fourth level: Root3 itself used as a state (events known only three levels down must still be forwarded)
+    struct Root4_ : public msm::front::state_machine_def<Root4_>
+    {
+        struct Idle4 : w_st {};
+        typedef Idle4 initial_state;
+        template <class Event, class FSM> void on_entry(Event const&, FSM&) {}
+        template <class Event, class FSM> void on_exit(Event const&, FSM&) {}
+        struct transition_table : mpl::vector<
+            msm::front::Row<Idle4, w_flag, Root3, msm::front::none, msm::front::none>,
+            msm::front::Row<Root3, w_other, Idle4, msm::front::none, w_grd>
+        > {};
+        template <class FSM, class Event> void no_transition(Event const&, FSM&, int) {}
+    };
+    typedef Back<Root4_, Policy> Root4;
 };
 
 template <class Cfg>
@@ -106,6 +122,7 @@ void w_use_depth3()
     m.process_event(w_in());
     w_step st; m.process_event(st);
     const w_in cin_{}; (void)cin_;
+    m.process_event(w_deep());
     m.process_event(w_other());
     m.process_event(w_leave());
     m.process_event(w_enter());
@@ -116,6 +133,12 @@ void w_use_depth3()
     typename D3::Root3 c(static_cast<const typename D3::Root3&>(m));
     c = m;
     c.start(w_enter()); c.stop(w_leave());
+    typename D3::Root4 r4;
+    r4.start();
+    r4.process_event(w_flag()); r4.process_event(w_enter()); r4.process_event(w_in());
+    r4.process_event(w_deep());                  // handled only by Inner, three levels below Root4
+    r4.process_event(w_step());
+    r4.stop();
 }
 
 template void w_use_player<hierarchical_state_machine<boost::msm::back::state_machine>>();
